@@ -392,6 +392,20 @@ def nested_phase(run):
                             if got is None:
                                 continue
                             d_in = IC.diff(orig, got)
+                        # does the container delegate to the nested class's own writer?  Then the nested
+                        # encoding under some version is a substring of the container's.  (A container that writes
+                        # a converted representation instead — TemplateAttribute as Attributes under KMIP 2.0 — is
+                        # not comparable with the nested codec and is left to the field-level rules.)
+                        encs = {}
+                        for w in IC.VERSIONS:
+                            try:
+                                encs[w] = IC.enc(copy.deepcopy(n), w)
+                            except Exception:
+                                pass
+                        if not any(e in b for e in encs.values()):
+                            run.stats["nested_converted_representation"] = \
+                                run.stats.get("nested_converted_representation", 0) + 1
+                            continue
                         try:
                             n2, left2 = IC.dec(fac_n, IC.enc(copy.deepcopy(n), v), v)
                             if left2:
@@ -411,9 +425,10 @@ def nested_phase(run):
                                 "c01:nested-field-dropped:%s.%s:%s%s" % (CC.defining_class(x, "write"), k, ncls.__name__,
                                                                          extra[0].split("[")[0].split(":")[0]),
                                 "%s.%s holding a fully populated %s (%s) under KMIP %s: %s come(s) back different "
-                                "although %s's own codec returns it under that version"
+                                "although %s's own codec returns it under that version (the container wrote the "
+                                "nested value as its KMIP %s encoding)"
                                 % (cls.__name__, k, ncls.__name__, label, IC.vname(v), ", ".join(extra[:4]),
-                                   ncls.__name__),
+                                   ncls.__name__, "/".join(IC.vname(w) for w, e in encs.items() if e in b)),
                                 {"kind": "nested", "class": key, "field": k, "list": is_list, "version": IC.vname(v),
                                  "base": {kk: CC.describe_value(vv) for kk, vv in kw.items() if kk != k and populated(vv)},
                                  "nested": CC.describe_value(n), "nested_version": "1.4"}))
